@@ -90,6 +90,10 @@ func (s *Countersignature) Sign(rand io.Reader, signer Signer, parent any, exter
 	if err != nil {
 		return err
 	}
+	if len(sig) == 0 {
+		// a signer that reports success must have produced a signature
+		return ErrEmptySignature
+	}
 
 	s.Signature = sig
 	return nil
@@ -294,6 +298,10 @@ func Countersign0(rand io.Reader, signer Signer, parent any, external []byte) ([
 	sig, err := signer.Sign(rand, toBeSigned)
 	if err != nil {
 		return nil, err
+	}
+	if len(sig) == 0 {
+		// a signer that reports success must have produced a signature
+		return nil, ErrEmptySignature
 	}
 	return sig, nil
 }
